@@ -18,11 +18,11 @@ def P(i, kind, q="", ins=(), outs=(), phase="conc"):
 
 
 def scn(name, procs, secrets=("s1",), lq=(("lq1", "UNPAID", "none", ""),), mq=(), used=(), pend=(), signed=(), mutex=True,
-        crash=False, ln="truth", releasecheck=True, pollguard=True, expect="hold"):
+        crash=False, ln="truth", releasecheck=True, pollguard=True, pollnotfound=False, expect="hold"):
     return {"name": name, "secrets": list(secrets), "used": list(used), "pend": [{"s": s, "q": q} for s, q in pend],
             "signed": list(signed), "lq": [{"q": q, "st": st, "pay": pay, "internal": i} for q, st, pay, i in lq],
             "mq": [{"q": q, "st": st, "settled": se} for q, st, se in mq], "mutex": mutex, "crash": crash, "ln": ln,
-            "releasecheck": releasecheck, "pollguard": pollguard, "procs": procs, "expect": expect}
+            "releasecheck": releasecheck, "pollguard": pollguard, "pollnotfound": pollnotfound, "procs": procs, "expect": expect}
 
 
 LQ2 = (("lq1", "UNPAID", "none", ""), ("lq2", "UNPAID", "none", ""))
@@ -87,6 +87,11 @@ def design_scenarios():
             lq=(), mutex=False, expect="fail"),
         scn("melt-poll-melt2-swap/no-release-check", [P(1, "melt", "lq1", ["s1"]), P(2, "pollmelt", "lq1"), P(3, "melt", "lq2", ["s1"]), sw(4)],
             lq=LQ2, releasecheck=False, pollguard=False, expect="fail"),
+        # a poll that releases on "no such payment": harmless behind the in-progress guard, a double spend without it (this is
+        # the seeded change C01-poll-notfound-releases-pending, which fix 68c3b64 made obsolete)
+        scn("melt-pollmelt-swap/poll-notfound-releases", [P(1, "melt", "lq1", ["s1"]), P(2, "pollmelt", "lq1"), sw(3)], pollnotfound=True),
+        scn("melt-pollmelt-swap/poll-notfound-releases/no-poll-guard", [P(1, "melt", "lq1", ["s1"]), P(2, "pollmelt", "lq1"), sw(3)],
+            pollnotfound=True, pollguard=False, expect="fail"),
         scn("melt-poll-melt-swap/no-poll-guard", [P(1, "melt", "lq1", ["s1"]), P(2, "pollmelt", "lq1"), P(3, "melt", "lq1", ["s1"]), sw(4)],
             pollguard=False, expect="fail"),
     ]
